@@ -928,6 +928,86 @@ def period_shifts(fn, consts):
     return out, swifts
 
 
+def _boundary_dates():
+    out = []
+    for y in (1996, 1997, 1998, 1999, 2000, 2001, 2004, 2005, 2008, 2009, 2010, 2011, 2015, 2016, 2020, 2021, 2026):
+        for d in range(26, 32):
+            out.append(_dt.datetime(y, 12, d, 12, 0))
+        for d in range(1, 9):
+            out.append(_dt.datetime(y, 1, d, 12, 0))
+        out.append(_dt.datetime(y, 6, 15, 12, 0))
+    return out
+
+
+def week_timex_cases(idx, owner, fn, guard_name, enum_vals, consts, swift_names, anchor_iso_day, suffix=''):
+    """interpret the branch of `fn` guarded by config.<guard_name>(..) up to its return, for reference dates around
+    ISO year boundaries x swift -1/0/1, and compare the TIMEX it assembles with the ISO week of the target week.
+    -> (number of cases, [(reference, swift, got, want)] mismatches, begin/end mismatches)"""
+    branch = None
+    for n in ast.walk(fn):
+        if isinstance(n, ast.If) and any(isinstance(c, ast.Call) and _callee_name(c) == guard_name for c in ast.walk(n.test)):
+            branch = n
+            break
+    if branch is None:
+        raise AnalysisError('%s: no branch guarded by config.%s' % (fn.name, guard_name))
+    if not any(isinstance(st, ast.Assign) and isinstance(st.targets[0], ast.Attribute) and st.targets[0].attr == 'timex'
+               for st in branch.body):
+        raise AnalysisError('%s[%s]: no TIMEX assignment found in the branch' % (fn.name, guard_name))
+
+    def res(node):
+        if isinstance(node, ast.Attribute) and isinstance(node.value, ast.Name):
+            if node.value.id == 'DayOfWeek' and node.attr in enum_vals:
+                return enum_vals[node.attr]
+            if node.value.id == 'Constants' and node.attr in consts:
+                return consts[node.attr]
+        raise Undetermined('attribute %s' % ast.unparse(node)[:40])
+
+    bad, bad_range, n = [], [], 0
+    for ref in _boundary_dates():
+        for sw in (-1, 0, 1):
+            env = {'reference': ref, 'year': ref.year, 'month': ref.month, 'future_year': ref.year, 'past_year': ref.year,
+                   'early_prefix': False, 'mid_prefix': False, 'late_prefix': False}
+            for nm in swift_names:
+                env[nm] = sw
+            ev = MiniEval(idx, owner, res)
+            timex = None
+            for st in branch.body:
+                if isinstance(st, ast.Return):
+                    break
+                if isinstance(st, ast.Assign) and isinstance(st.targets[0], ast.Attribute):
+                    if st.targets[0].attr == 'timex':
+                        try:
+                            timex = ev.expr(st.value, env)
+                        except Undetermined as e:
+                            raise AnalysisError('%s[%s]: TIMEX expression cannot be interpreted: %s' % (fn.name, guard_name, e))
+                    continue
+                try:
+                    ev.block([st], env)
+                except Undetermined:
+                    continue         # statements that need parser state (inclusive-end switch ...) do not feed the TIMEX
+                except _Return:
+                    break
+            n += 1
+            monday = (ref - _dt.timedelta(days=ref.isoweekday() - 1)) + _dt.timedelta(days=7 * sw)
+            anchor = monday + _dt.timedelta(days=anchor_iso_day - 1)
+            iso = anchor.isocalendar()
+            want = '%04d-W%02d%s' % (iso[0], iso[1], suffix)
+            if timex != want:
+                bad.append((ref, sw, timex, want))
+            b, e2 = env.get('begin_date'), env.get('end_date')
+            if isinstance(b, _dt.datetime) and b.date() != anchor.date():
+                bad_range.append((ref, sw, b, anchor))
+    return n, bad, bad_range
+
+
+_WEEKTIMEX_CONTROL = '''
+def p(self, reference, swift):
+    if self.config.is_week_only(t):
+        monday = DateUtils.this(reference, DayOfWeek.MONDAY) + datedelta(days=7 * swift)
+        result.timex = f'{monday.year:04d}-W{DateUtils.week_of_year(monday):02d}'
+'''
+
+
 REF_PERIOD = {'is_week_only': ('days', 7), 'is_weekend': ('days', 7), 'is_month_only': ('months', 1), 'is_year_only': ('years', 1)}
 
 
@@ -1056,6 +1136,8 @@ def run(chk):
     chk.rule('C08.weekday', 'DateUtils.this/next/last give the weekday of the same ISO week / +7 / -7 days', floor=3, control=True)
     chk.rule('C08.implicit', 'parse_implicit_date wires next/last/this regexes and special days correctly', floor=8, control=True)
     chk.rule('C08.period', 'one-word periods shift by 7*swift days / swift months / swift years', floor=4, control=True)
+    chk.rule('C08.weektimex', 'the week TIMEX of this/next/last week names the ISO week-year and ISO week number of one and the same week',
+             floor=1, control=True)
     chk.rule('C08.wiring', 'next/last/this (and ago/later) slots are wired to regexes of that kind in every culture', floor=50)
     chk.rule('C08.specialday', 'today/tomorrow/yesterday lexicon evaluates to 0/+1/-1 (+-2) through get_swift_day', floor=30, control=True)
     chk.rule('C08.relperiod', 'this/next/last week|month|year phrases evaluate to the right unit predicate and swift in every culture',
@@ -1232,6 +1314,42 @@ def run(chk):
                     "        d = DateUtils.this(reference, 1) + datedelta(days=swift)\n").body[0]
     cs, _ = period_shifts(ctl, consts)
     chk.control('C08.period', bool(cs) and (cs[0][1][1], cs[0][1][2]) != REF_PERIOD['is_week_only'])
+
+    # ---- C08.weektimex
+    n, wbad, rbad = week_timex_cases(idx, bpp, pf, 'is_week_only', enum, consts, swifts, 1)
+    cons = 'BaseDatePeriodParser._parse_one_word_period[is_week_only]#timex'
+    if wbad:
+        ref, sw, got, wantt = wbad[0]
+        chk.bad('C08.weektimex', bpp.mod.path, cons, '%d of %d interpreted cases differ; first: reference %s swift %+d -> %s, ISO week %s'
+                % (len(wbad), n, ref.date(), sw, got, wantt),
+                'week TIMEX does not name the ISO week: at reference %s with swift %+d the branch assembles %r, the target week is %s '
+                '(%d of %d interpreted year-boundary cases differ) - year and week number must come from the same ISO week'
+                % (ref.date(), sw, got, wantt, len(wbad), n), pf.lineno)
+    else:
+        chk.ok('C08.weektimex', bpp.mod.path, cons, '%d interpreted cases equal isocalendar() of the target week' % n, pf.lineno)
+    if rbad:
+        ref, sw, got, wantd = rbad[0]
+        chk.bad('C08.weektimex', bpp.mod.path, cons + '/begin', '%d of %d begin dates differ' % (len(rbad), n),
+                'this/next/last week: at reference %s with swift %+d the period begins %s, the target week begins %s'
+                % (ref.date(), sw, got.date(), wantd.date()), pf.lineno)
+    else:
+        chk.ok('C08.weektimex', bpp.mod.path, cons + '/begin', 'begin date is the monday of the target week in %d cases' % n, pf.lineno)
+    try:
+        n2, ebad, _ = week_timex_cases(idx, bpp, pf, 'is_weekend', enum, consts, swifts, 6, '-WE')
+        cons2 = 'BaseDatePeriodParser._parse_one_word_period[is_weekend]#timex'
+        if ebad:
+            ref, sw, got, wantt = ebad[0]
+            chk.exempt('C08.weektimex', bpp.mod.path, cons2, "weekends are outside the families C08 lists (this/next/last week|month|year)",
+                       '%d of %d differ' % (len(ebad), n2), pf.lineno)
+            chk.observe('%s: weekend TIMEX mixes the reference year with the ISO week number: reference %s swift %+d -> %s, ISO week is %s '
+                        '(%d of %d year-boundary cases; not a C08 family)' % (bpp.mod.rel, ref.date(), sw, got, wantt, len(ebad), n2))
+        else:
+            chk.ok('C08.weektimex', bpp.mod.path, cons2, '%d interpreted cases equal isocalendar() of the target weekend' % n2, pf.lineno)
+    except AnalysisError as e:
+        chk.observe('weekend TIMEX not evaluated: %s' % e)
+    ctl = ast.parse(_WEEKTIMEX_CONTROL).body[0]
+    _, cbad, _ = week_timex_cases(idx, bpp, ctl, 'is_week_only', enum, consts, {'swift'}, 1)
+    chk.control('C08.weektimex', bool(cbad))
 
     # ---- per culture: wiring, special days, get_swift*
     dp_cfgs = W.culture_classes(DT + 'base_date.DateParserConfiguration')
